@@ -18,7 +18,11 @@ def modelled : List String := [
   "babyjub.PrivateKey.Scalar",
   "babyjub.SkToBigInt",
   "babyjub.pruneBuffer",
-  "utils.SetBigIntFromLEBytes"
+  "utils.SetBigIntFromLEBytes",
+  "babyjub.<decls>@babyjub.go",
+  "babyjub.<decls>@eddsa.go",
+  "babyjub.<decls>@helpers.go",
+  "utils.<decls>@utils.go"
 ]
 
 theorem source_pinned : modelled.all (same I3.Gen.fingerprints) = true := by decide +kernel
@@ -26,6 +30,6 @@ theorem source_pinned : modelled.all (same I3.Gen.fingerprints) = true := by dec
 theorem function_set_pinned : (["babyjub.", "utils."] : List String).all (sameKeys I3.Gen.fingerprints) = true := by
   decide +kernel
 
-theorem modelled_nonempty : 10 = modelled.length := by decide
+theorem modelled_nonempty : 14 = modelled.length := by decide
 
 end I3.Props.C12
